@@ -156,7 +156,8 @@ Fixpoint set_hibs (i : nat) (parts : list nat) (seeds : cmap) (ds : list deme) :
   | d :: r => (if existsb (Nat.eqb i) parts then set_hib (negb (has_seeds seeds i)) d else d) :: set_hibs (S i) parts seeds r
   end.
 Definition seeds_valid (c : cfg) (ds : list deme) (seeds : cmap) : bool :=
-  forallb (fun pk => (fst pk <? length ds) && (S (d_lvl (dnth (fst pk) ds)) <? height c)) seeds.
+  forallb (fun pk => (fst pk <? length ds) && (S (d_lvl (dnth (fst pk) ds)) <? height c) && (1 <=? d_meta (dnth (fst pk) ds))) seeds.
+  (* candidates are offered for demes that exist, are not leaves and have run at least one metaepoch (a deme created by a round runs before the next round) *)
 
 (* ---------------------------------------------------------------- the step function *)
 Definition b2n (b : bool) : nat := if b then 1 else 0.
